@@ -85,11 +85,11 @@ PROPS = {
         ],
     ),
     'C11': dict(
-        verus=['varint_pbf', 'vector_tile_tables', 'vector_tile_feature', 'vector_tile_layer', 'vector_tile_layer_enc', 'vector_tile_merge'],
+        verus=['varint_pbf', 'vector_tile_tables', 'vector_tile_feature', 'vector_tile_layer', 'vector_tile_layer_enc', 'vector_tile_merge', 'update_properties'],
         kani=[],
         not_decided=[
-            'the operation itself (vectortiles_update_properties::run, filter_map_properties): iterator adapters and closures over iter_mut',
-            'only-the-named-layer-changes, CSV join semantics, value typing (GeoValue)',
+            'what the property callback computes (CSV join: id lookup, replace / update / remove; abstracted by R12) and value typing (GeoValue)',
+            'filter_map_properties beyond its per-feature step (table rebuild through iterator adapters); build() of the operation (CSV loading, tilejson fields)',
             'GeoValue typing and value sub-message codec (write_svarint/read_svarint are under contract, GeoValue::{read,to_blob} are not)',
             'feature decoder correctness beyond totality (to_blob is proved against the MVT wire layout; read is proved total, the composition read(to_blob(f)) = f is not)',
             'round trip lemma dec(enc(v)) = v for varints is stated per direction (encoder = LEB128 spec, decoder = 7-bit group rule), not composed',
